@@ -527,6 +527,11 @@ pub fn run(args: &Args, rep: &mut Report) {
             control_matrix(&mut e, thorough);
             random_cases(&mut e, Focus::Control, scale(40_000, 1_500_000), ls, &[], "random-control");
         }
+        "C10" if args.regime == "miri" => {
+            vmgen::TINY.store(true, Ordering::Relaxed);
+            // the interpreter is ~10^4 times slower: two small cases per shard
+            random_cases(&mut e, Focus::Compute, 2, ls, &[1, 3], "random-compute");
+        }
         "C10" => {
             let pools: &[usize] = if thorough { &[1, 2, 3, 5, 8, 16] } else { &[1, 3, 8] };
             random_cases(&mut e, Focus::Compute, scale(8_000, 300_000), ls, pools, "random-compute");
